@@ -72,6 +72,15 @@ CLAIMED = {
              "all seed/key outcomes and switch settings and by all 126 levels x 6 algorithm signatures on the real client.",
         design_ref='DESIGN.md §3 C13',
         technique='Lean 4 proof (case analysis; decide over all levels) + call-graph tie + differential history suite'),
+    'C14': dict(
+        text="Lean theorems over a line-faithful model of MemoryLocation / AddressAndLengthFormatIdentifier and the client's set_format_if_none calls: widths are explicit, else "
+             "configured, else the smallest number of bytes (>= 1) holding the value (characterised for every value below 2^64, refusal at and above); the format byte's nibbles equal the "
+             "byte counts transmitted; an independent Annex-H decoder recovers address and size for every value that fits and the request is refused exactly when a value does not fit "
+             "(nothing is cut); every 0..2^64-1 pair is transmitted under automatic sizing; the five request layouts; dynamic-DID entry lists by induction; the write echo decodes "
+             "symmetrically for all 64 width pairs. Tied by a differential suite at every byte-width boundary x explicit x configured formats on the real client, echo variants, entry lists, "
+             "and the kernel-checked ALFID table tie.",
+        design_ref='DESIGN.md §3 C14',
+        technique='Lean 4 proof (toBE/fromBE lemmas, strong induction for byte length, list induction) + extracted ALFID table tie + differential correspondence at width boundaries'),
     'C15': dict(
         text="Lean theorems: the wait loop never sends or flushes; every send_request log is flush, one send, then waits only (any outcome), at most one send per call and "
              "two for the composite, stale frames cannot influence a call and the queue is empty afterwards, a call is a function of (arguments, configuration, timing, flags), "
